@@ -150,9 +150,9 @@ def check_case(case):
         if ex.phase == "codegen":
             nondiff, risky = classify(model)
             if nondiff:
-                raise Violation("C06:codegen:floor-or-Mod-of-own-state", dict(ctx, error=str(ex)[:600]))
+                raise Violation("C06:codegen:floor-or-Mod-of-own-state", dict(ctx, error=str(ex)[:3000]))
             if risky:
-                raise Violation("C06:codegen:abs-of-not-provably-real-own-state-expression", dict(ctx, error=str(ex)[:600]))
+                raise Violation("C06:codegen:abs-of-not-provably-real-own-state-expression", dict(ctx, error=str(ex)[:3000]))
         raise Violation(f"C06:{backend}:{ex.signature()}", dict(ctx, error=str(ex)[:800], code=ex.code))
     if not mod.has(name):
         raise Violation(f"C06:{backend}:missing-function", dict(ctx, code=mod.code))
